@@ -6,7 +6,60 @@ Import ListNotations.
 Open Scope string_scope.
 
 Definition modelled_sites : list string := [
-(*SITES*)
+  "callframe.go|callFramePop|slice|_[:_]|!(_ != nil) && _ && len(_) > _";
+  "callframe.go|callFramePop|slice|_[:_]|!(_ != nil) && len(_) > 0";
+  "callframe.go|callFramePop|slice|_[_:_]|_+1 <= _";
+  "catch.go|handleCatch|assert|_.(T)|!(_ <= 0) && !(_ == nil || _(_, _)) && !(_(_, _)) && _() && for _ >= 0 && len(_) > 0 && range _";
+  "catch.go|handleCatch|index|_[_]|!(_ == nil || _(_, _)) && !(_(_, _)) && _ >= 0";
+  "catch.go|handleCatch|index|_[_]|!(_ == nil || _(_, _)) && !(_(_, _)) && _ >= 0 && for _ < len(_)";
+  "catch.go|handleCatch|index|_[_]|!(_ == nil || _(_, _)) && !(_(_, _)) && _() && for _ >= 0";
+  "catch.go|handleCatch|slice|_[:_+1]|!(_ == nil || _(_, _)) && !(_(_, _)) && _ >= 0";
+  "context.go|PopWithoutUnwrapping|index|_[_]|!(_ <= 0 || len(_) < _)";
+  "context.go|push|index|_[_]|";
+  "context.go|push|make|make(T, _)|_ >= len(_)";
+  "cursor.go|CurrentColumn|index|_[_]|!(_ == 0 || _ >= len(_))";
+  "cursor.go|CurrentLine|index|_[_]|!(_ == 0 || _ >= len(_))";
+  "cursor.go|NextText|index|_[_]|!(_ >= len(_))";
+  "cursor.go|Next|index|_[_]|!(_ >= len(_))";
+  "cursor.go|PeekText|index|_[_]|!(_ < 0 || _ >= len(_))";
+  "cursor.go|Peek|index|_[_]|!(_ >= len(_) || _ < 0)";
+  "expr_atom.go|compileRuneExpression|index|_[0]|!(_() == _) && len(_) == 1 && len(_) > 1 && _[0] == '\'' && _[len(_)-1] == '\''";
+  "expr_atom.go|compileRuneExpression|index|_[0]|!(_() == _) && len(_) > 1";
+  "expr_atom.go|compileRuneExpression|index|_[_]|!(_() == _) && !(len(_) == 1) && _ && len(_) > 1 && _[0] == '\'' && _[len(_)-1] == '\'' && range _";
+  "expr_atom.go|compileRuneExpression|index|_[len(_)-1]|!(_() == _) && len(_) > 1 && _[0] == '\''";
+  "expr_atom.go|compileRuneExpression|make|make(T, len(_))|!(_() == _) && !(len(_) == 1) && _ && len(_) > 1 && _[0] == '\'' && _[len(_)-1] == '\''";
+  "expr_atom.go|compileRuneExpression|slice|_[1 : len(_)-1]|!(_() == _) && len(_) > 1 && _[0] == '\'' && _[len(_)-1] == '\''";
+  "expr_atom.go|convertRadixToDecimal|index|_[0]|!(_()) && !(len(_) < 2 || _[0] < '0' || _[0] > '9')";
+  "expr_atom.go|convertRadixToDecimal|index|_[0]|!(_()) && !(len(_) < 2 || _[0] < '0')";
+  "expr_atom.go|convertRadixToDecimal|index|_[0]|!(_()) && !(len(_) < 2)";
+  "expr_atom.go|convertRadixToDecimal|index|_[1]|!(_()) && !(len(_) < 2 || _[0] < '0' || _[0] > '9') && _[0] == '0'";
+  "insert.go|Delete|make|make(T, 0, len(_)-_+_)|!(_ < 0 || _ >= len(_) || _ < _ || _ > len(_))";
+  "insert.go|Delete|slice|_[:_]|!(_ < 0 || _ >= len(_) || _ < _ || _ > len(_))";
+  "insert.go|Delete|slice|_[_:]|!(_ < 0 || _ >= len(_) || _ < _ || _ > len(_))";
+  "insert.go|Insert|make|make(T, 0, len(_)+len(_))|!(_ < 0 || _ >= len(_)) && !(len(_) == 0)";
+  "insert.go|Insert|slice|_[:_]|!(_ < 0 || _ >= len(_)) && !(len(_) == 0)";
+  "insert.go|Insert|slice|_[_:]|!(_ < 0 || _ >= len(_)) && !(len(_) == 0)";
+  "lexer.go|lexer|index|_[_-1]|!(_ == _) && _ && for _ != _ && len(_) >= 2";
+  "lexer.go|lexer|index|_[_]|!(_ == _) && _ && for _ != _ && len(_) >= 2";
+  "lexer.go|lexer|index|_[len(_)-len(_)+_+1]|!(_ == _) && !(len(_) > len(_)) && _ && for _ != _ && for _ < len(_)-1 && range _";
+  "lexer.go|lexer|index|_[len(_)-len(_)+_]|!(_ == _) && !(len(_) > len(_)) && _ && for _ != _ && for _ < len(_)-1 && range _";
+  "lexer.go|lexer|index|_[len(_)-len(_)+_]|!(_ == _) && !(len(_) > len(_)) && _ && for _ != _ && range _";
+  "lexer.go|lexer|slice|_[:_-1]|!(_ == _) && _ && _ == _ && _ == ""i"" && (_ == _ || _ == _) && _ == _ && _ == _+int32(len(_)) && for _ != _ && len(_) >= 2";
+  "lexer.go|lexer|slice|_[:len(_)-_]|!(_ == _) && !(len(_) > len(_)) && _ && for _ != _ && range _";
+  "line.go|GetLine|index|_[_-1]|!(_ < 1 || _ > len(_)) && !(_ == nil)";
+  "line.go|GetTokenText|slice|_[_ : _+1]|!(_ == nil) && !(_ > _)";
+  "line.go|Remainder|index|_[_]|!(_ < 0 || _ >= len(_))";
+  "line.go|Remainder|slice|_[_:]|!(_ < 0 || _ >= int32(len(_))) && !(_ < 0 || _ >= len(_))";
+  "macro.go|compilerMacro|index|_[0]|!(_ == nil) && !(len(_) != 1) && _";
+  "macro.go|compilerMacro|index|_[len(_)-1]|!(_ != nil) && !(_ == nil) && !(_() != _) && !(len(_) != 1) && _ && _ && len(_) > 0";
+  "macro.go|compilerMacro|make|make(T, 0, len(_))|!(_ == nil) && !(_() != _) && !(len(_) != 1) && _";
+  "macro.go|compilerMacro|slice|_[:len(_)-1]|!(_ != nil) && !(_ == nil) && !(_() != _) && !(len(_) != 1) && _ && _ && len(_) > 0 && _(_)";
+  "stack.go|dropToMarkerByteCode|assert|_.(T)|!(_ != nil) && !(_ <= _) && _ && _ != nil && for !_";
+  "stack.go|stackCheckByteCode|index|_[_-(_+1)]|!(_ != nil || _ <= _)";
+  "stack.go|stackCheckByteCode|index|_[_]|!(_ != nil || _ <= _) && for _ >= 0";
+  "testing.go|testDirective|index|_[0]|!(!_) && !(_ == """")";
+  "testing.go|testDirective|slice|_[:46]|!(!_) && !(_ == """") && len(_) > 48";
+  "tokenizer.go|GetTokens|slice|_[_:_]|"
 ].
 
 Definition sites_included (found known : list string) : bool :=
